@@ -174,6 +174,15 @@ def run_case(i):
         evs, info = gen_stream(rng, 300 + s, scope if s == 0 else "ok", before_start=(rng.random() < 0.4) if s else None, shift=shift)
         streams.append((300 + s, evs, info))
         need = max(need, info["need"])
+    wide = scope == "ok" and i % 9 == 4
+    if wide:
+        # a wide trace: 40-60 further streams that need no sorting at all, the tool running with fewer file
+        # descriptors than the trace has streams (it handles one stream at a time)
+        for s in range(rng.randint(40, 60)):
+            tid = 400 + s
+            evs = [[1000, "OHx", obs.i32(-1, tid, 0), False]] + \
+                  [[1001 + k, "OB.", obs.u64(k), False] for k in range(rng.randint(0, 5))] + [[1100, "OHe", b"", False]]
+            streams.append((tid, evs, {"regions": [], "need": 0}))
     if scope == "ok":
         n = rng.choice([2 * need + 4, 2 * need + 4, 4 * need + 10, 10 ** 6])
     else:
@@ -241,7 +250,7 @@ def run_case(i):
                     out["viol"] = ("write-failed-but-exit-0", "a pwrite of ovnisort failed with EIO, a stream is still unsorted "
                                    "and ovnisort exited 0", rf.brief()); return out
             before = write_all()
-        r = emu.run_tool(build, "ovnisort", ["-n", str(n), wd], timeout=60, env=env)
+        r = emu.run_tool(build, "ovnisort", ["-n", str(n), wd], timeout=60, env=env, nofile=32 if wide else None)
         if r.timeout:
             out["inconclusive"] = "timeout"; return out
         if r.sanitizer:
@@ -273,14 +282,14 @@ def run_case(i):
                 out["viol"] = (key, "stream %d differs from the stable sort of the original at event %d: got %r expected %r"
                                % (tid, k, got[k] if k < len(got) else None, exp[k]), {"n": n, "need": need}); return out
         # idempotence
-        r2 = emu.run_tool(build, "ovnisort", ["-n", str(n), wd], timeout=60, env=env)
+        r2 = emu.run_tool(build, "ovnisort", ["-n", str(n), wd], timeout=60, env=env, nofile=32 if wide else None)
         if r2.rc != 0 or r2.sig:
             out["viol"] = ("second-run-fails", "second ovnisort rc=%s sig=%s" % (r2.rc, r2.sig), r2.brief()); return out
         for tid, evs, info in streams:
             p = os.path.join(obs.stream_dir(wd, "L", 1, tid), "stream.obs")
             if open(p, "rb").read() != after[tid]:
                 out["viol"] = ("not-idempotent", "a second run changed stream %d" % tid, {}); return out
-        rc_ = emu.run_tool(build, "ovnisort", ["-c", wd], timeout=60, env=env)
+        rc_ = emu.run_tool(build, "ovnisort", ["-c", wd], timeout=60, env=env, nofile=32 if wide else None)
         if rc_.rc != 0 or rc_.sig:
             out["viol"] = ("check-mode-fails", "ovnisort -c rc=%s after sorting: %s" % (rc_.rc, rc_.err[-200:]), rc_.brief()); return out
         if shift > 0:
